@@ -418,15 +418,19 @@ fn op_calc(case: &Value) -> Value {
     let record = case.get("record").and_then(Value::as_bool).unwrap_or(false);
     let shuffle = case.get("shuffle").and_then(Value::as_u64);
     let armed = record || shuffle.is_some();
+    #[cfg(feature = "hooks")]
     if armed {
         cgt_core::verif::arm(shuffle);
     }
     let result = calculate(&txs, year, fx_ref, &config);
+    #[cfg(feature = "hooks")]
     let recording = if armed {
         Some(cgt_core::verif::disarm())
     } else {
         None
     };
+    #[cfg(not(feature = "hooks"))]
+    let _ = armed;
     let mut out = Map::new();
     match result {
         Ok(report) => {
@@ -450,6 +454,7 @@ fn op_calc(case: &Value) -> Value {
                             ok.insert("json_err".into(), json!(e.to_string()));
                         }
                     },
+                    #[cfg(feature = "hooks")]
                     "pdf_runs" => match cgt_formatter_pdf::verif_text_runs(&report) {
                         Ok(runs) => {
                             ok.insert("pdf_runs".into(), json!(runs));
@@ -480,12 +485,15 @@ fn op_calc(case: &Value) -> Value {
             out.insert("stage".into(), json!("calculate"));
         }
     }
+    #[cfg(feature = "hooks")]
     if let Some(rec) = recording {
         if record {
             out.insert("snapshots".into(), Value::Array(rec.snapshots));
         }
         out.insert("orders".into(), Value::Array(rec.orders));
     }
+    #[cfg(not(feature = "hooks"))]
+    let _ = record;
     Value::Object(out)
 }
 
@@ -684,7 +692,7 @@ fn dispatch(case: &Value) -> Value {
         "currencies" => op_currencies(case),
         "fx_get" => op_fx_get(case),
         "format" => op_format(case),
-        "ping" => json!({"ok": "pong"}),
+        "ping" => json!({"ok": "pong", "hooks": cfg!(feature = "hooks")}),
         other => json!({"err": {"kind": "Harness", "message": format!("unknown op {other}")}}),
     }
 }
@@ -733,6 +741,7 @@ fn main() {
             Ok(v) => v,
             Err(_) => {
                 // A panic may leave the recorder armed; reset it.
+                #[cfg(feature = "hooks")]
                 let _ = cgt_core::verif::disarm();
                 let p = LAST_PANIC.with(|p| p.borrow_mut().take());
                 json!({"panic": p.unwrap_or(json!({"message": "unknown", "location": ""}))})
